@@ -35,6 +35,23 @@ def _field(sch, name, t, unroll, prefix):
     return [(prefix + name, t, name)]
 
 
+def leaf_units(sch, struct_name, unroll=True, prefix=""):
+    """{leaf name: unit declared on the field the leaf comes from (None when there is none)}."""
+    out = {}
+    for f in sch.fields_by_id(struct_name):
+        t = f["type"]
+        names = [f["name"]]
+        while t[0] == "arr" and unroll:
+            names = ["%s_%d" % (n, i) for n in names for i in range(t[2])]
+            t = t[1]
+        for n in names:
+            if t[0] == "struct":
+                out.update(leaf_units(sch, t[1], unroll, prefix + n + "::"))
+            else:
+                out[prefix + n] = f.get("unit")
+    return out
+
+
 def layout(sch, struct_name, unroll):
     """[(name, bitstart, bitlength, type, field_name)]"""
     out = []
